@@ -61,9 +61,22 @@ func findBootstrap(c *core.Ctx) (*bootstrapSubject, string) {
 	// helpers of the bootstrap (not registration functions)
 	helpers := map[*ssa.Function]bool{}
 	reachesCall(s.fn, func(*ssa.CallCommon) bool { return false }, helpers)
-	for h := range helpers {
-		if h != s.fn && core.PkgOf(h) == core.PkgOf(s.fn) && containsGo(h) {
-			s.parallel = append(s.parallel, core.TopLevel(h))
+	// the parallel definition scan: the functions of the package that start goroutines and dispatch definition
+	// registry post-processors (a helper of the bootstrap or a sibling stage of it)
+	seenPar := map[*ssa.Function]bool{}
+	for _, site := range c.CallSites(func(com *ssa.CallCommon) bool { return core.IsInvoke(com, ro.DRPPPostProcess) }) {
+		h := core.TopLevel(site.Parent())
+		for depth := 0; depth < 3 && h != nil && !containsGo(h); depth++ {
+			// the goroutine body may be a named function: look at its only caller
+			callers := c.Callers(h)
+			if len(callers) != 1 {
+				break
+			}
+			h = core.TopLevel(callers[0])
+		}
+		if h != nil && h != s.fn && core.PkgOf(h) == core.PkgOf(s.fn) && containsGo(h) && !seenPar[h] {
+			seenPar[h] = true
+			s.parallel = append(s.parallel, h)
 		}
 	}
 	// the registration function: another method of the same type that appends to a []ComponentPostProcessor field
@@ -125,6 +138,30 @@ func findBootstrap(c *core.Ctx) (*bootstrapSubject, string) {
 		return nil, "the list field the before-initialization dispatch ranges over was not found"
 	}
 	return s, ""
+}
+
+// dispatchFieldName: the name of the delegate's list field that the bootstrap fills in contract order ("" if the
+// bootstrap could not be located; C12.R5 reports that).
+func dispatchFieldName(c *core.Ctx) string {
+	if v, ok := c.Memo.Load("dispatch-field"); ok {
+		return v.(string)
+	}
+	name := ""
+	if bs, _ := findBootstrap(c); bs != nil {
+		name = bs.dispatch
+	}
+	c.Memo.Store("dispatch-field", name)
+	return name
+}
+
+// dispatchList is what a decision table answers for a list-of-interfaces field of the delegate: the table's
+// processors for the dispatch list, nothing for any other list (the registration-order list is emptied by the
+// bootstrap) - a stage that ranges over the wrong list asks nobody and fails its order row.
+func dispatchList(c *core.Ctx, field string, procs *absint.List) absint.Value {
+	if d := dispatchFieldName(c); d != "" && field != d {
+		return &absint.List{IsNil: true}
+	}
+	return procs
 }
 
 // bootstrapTable registers n post-processors (every LazyInit / eager combination) through the registration method and
